@@ -68,6 +68,7 @@ class Sim(object):
         self.task_calls = []       # (function name, payload, virtual time)
         self.tasks = tasks or {}   # function name -> f(payload, nth call) -> reply JSON value | NOREPLY
         self.task_counts = {}
+        self.crashes = []
         self.eager_timers = False  # True: a pending timer may fire at any step (deadline races)
         td = self.engine.task_dispatcher
         td.producer = self
@@ -136,6 +137,14 @@ class Sim(object):
         if not acts:
             return False
         kind, i = acts[choice % len(acts)]
+        try:
+            self._do(kind, i)
+        except Exception as e:          # an exception escaping the engine / dispatcher is an observation, not a harness error
+            import traceback
+            self.crashes.append("%s: %s: %s @ %s" % (kind, type(e).__name__, e, traceback.format_exc().strip().split("\n")[-3].strip()[:120]))
+        return True
+
+    def _do(self, kind, i):
         if kind == "deliver":
             mid, text = self.queue.pop(i)
             self.unacknowledged_messages[mid] = text
@@ -155,7 +164,6 @@ class Sim(object):
                 self.now = max(self.now, due)
                 cb()
                 break
-        return True
 
     def _reply_for(self, req, peek=False):
         name = req.subject
@@ -226,6 +234,8 @@ class Sim(object):
 def generic_invariants(sim):
     """Properties that must hold at quiescence of ANY run (C02, C03, C09, C11); returns a list of problems."""
     probs = []
+    for c in sim.crashes:
+        probs.append("C03/C18: an exception escaped the engine: " + c)
     rec = sim.record()
     term = sim.terminal_notifications()
     running = [m for s, m in sim.broadcasts if m["detail"]["status"] == "RUNNING"]
